@@ -278,6 +278,10 @@ class Expander:
             # is (and either decides it or fails to ingest it => undecided)
             it.rewrites.append({"regex": bt[0], "replacement": bt[1], "reason": reason, "matches": cnt[0]})
 
+        if imported and not it.is_fn and last.startswith("impl ") and " for " in last:
+            # a trait impl of an imported unit is verified in its own unit; here its functions are imported by contract
+            # (the *SpecImpl next to it is the contract): bodies are not verified again
+            text = re.sub(r"(^|\n)([ \t]*)((?:pub\s+)?fn\s)", r"\1\2#[verifier::external_body] \3", text)
         tm = rustlex.mask(text)
         inserts = []  # (offset, order, text, origin-kind)
         if it.is_fn:
